@@ -32,11 +32,11 @@ def hc(c):
 
 
 def enc_val(v):
-    """values travel as single tokens: spaces as \\s, empty as \\e"""
+    """values travel as single tokens: spaces as \\s, tabs as \\t, newlines as \\n, empty as \\e"""
     v = str(v)
     if v == "":
         return "\\e"
-    return v.replace(" ", "\\s")
+    return v.replace(" ", "\\s").replace("\t", "\\t").replace("\n", "\\n")
 
 
 class ICase:
@@ -148,6 +148,24 @@ def value_for(ty, rng, valid=True, default=None):
     raise ValueError("unknown field type " + ty)
 
 
+def malformed_values(ty):
+    """every text tried for a field of the given type in the exhaustive malformed sweep (some are well-formed on purpose)"""
+    if ty in ("PeriodType", "u8"):
+        return ["0", "1", "254", "255", "256", "257", "300", "65535", "65536", "4294967296", "18446744073709551616", "-1", "-0", "x", "",
+                "3.5", " 5", "5 ", "\t5", "5\n", "+5", "+", "1000000000000", "0x5", "5u8", "٥"]
+    if ty == "ValueType":
+        return ["NaN", "inf", "-inf", "-1", "0", "1e308", "abc", "", "0,5", "1e-320", " 0.5", "0.5 ", "\t0.5", "0.5\n", " 2.5", "2.5 ",
+                "+0.5", ".5", "5.", "1e2", "1_0", "0x1p-1", "½"]
+    if ty == "Source":
+        return ["closee", "", "CLOSE", " tp ", "volume", "volumed_price", "ohlc4", "c lose", "hl 2", "t p"]
+    if ty == "M":
+        return ["sma", "sma-", "-5", "sma-0", "sma-1", "sma-255", "sma-256", "SMA-5", "foo-5", "wsma-128", "wsma-0", "vidya-255",
+                "sma-5-6", "ema--5", "é-3", "hma-1", "linreg-1", " sma-5", "sma-5 ", "sma- 5", "sma -5"]
+    if ty == "bool":
+        return ["1", "yes", "", "True", " true", "true ", "TRUE", "0"]
+    return []
+
+
 def random_config(t, rng, nchanges=2):
     """a list of (key, text) sets that are individually well-formed (the result may or may not validate)"""
     pub = [f for f in t["fields"] if f["public"]]
@@ -175,7 +193,21 @@ def candles_for(rng, n, regime=None):
 # parameters whose non-default values switch a different code path on (not just a different length)
 DIRECTED = {"ChaikinOscillator": [[("window", "1")], [("window", "5")]],
             "PriceChannelStrategy": [[("sigma", "0.5")]],
-            "AverageDirectionalIndex": [[("period1", "2")]]}
+            "AverageDirectionalIndex": [[("period1", "2")]],
+            # zone thresholds that fall between two window positions (period x zone has a fractional part >= 0.5)
+            "Aroon": [[("period", "9"), ("signal_zone", "0.3")], [("period", "20"), ("signal_zone", "0.33")]]}
+
+
+MA_KINDS = ["sma", "wma", "hma", "rma", "ema", "dma", "dema", "tma", "tema", "wsma", "smm", "swma", "trima", "linreg", "vidya"]
+
+
+def ma_kind_configs(t, period=9):
+    """one configuration per averaging kind for the first MA-typed parameter of the indicator (all 15 kinds of the MA
+    constructor: a dispatch slip or a serde slip on one variant shows only with that kind)"""
+    fs = [f["name"] for f in t["fields"] if f["public"] and f["ty"] == "M"]
+    if not fs:
+        return []
+    return [[(fs[0], "%s-%d" % (k, period))] for k in MA_KINDS]
 
 
 def configs(t, rng, n_random):
